@@ -426,6 +426,8 @@ INCLUDES = [
     "playback/swimos_runtime__agent__reporting__verif_kani.rs",
     "swimos_agent__value_store.rs",
     "playback/swimos_agent__stores__value__verif_kani.rs",
+    "swimos_route__route_pattern.rs",
+    "playback/swimos_route__route_pattern__verif_kani.rs",
 ]
 
 
